@@ -360,10 +360,10 @@ def check_unsafe(run, S, inv):
             missing.append('%s @ %s' % (s['owner'], s['span']))
     run.ob('%s:unsafe:exercised' % PROP, not missing, rule='K10 unsafe census', expected='every unsafe block lies in a function body inlined into at least one analysable root', found=sorted(set(missing))[:8])
     run.notes['unsafe_ops'] = counts
-    run.floor('unsafe_sites', len(sites), 90)
-    run.floor('transmutes', counts.get('core::intrinsics::transmute', 0), 80)
-    run.floor('ptr_swaps', counts.get('core::ptr::swap', 0), 7)
-    run.floor('get_unchecked', counts.get('core::slice::{impl#0}::get_unchecked', 0), 36)
+    # vacuity guard for the census: the inventory pass really enumerated the crate (the number of unsafe operations
+    # itself has no floor: replacing unsafe code by safe code is not a violation)
+    run.floor('inventory_fns', len(inv['fns']), 2000)
+    run.floor('inventory_impls', len(inv['impls']), 1500)
     unsafe_impls = [i for i in inv['impls'] if i['safety'] != 'Safe']
     bad = [i for i in unsafe_impls if not i['trait'].startswith('bytemuck')]
     run.ob('%s:unsafe:impls' % PROP, not bad, rule='K10 unsafe census', expected='unsafe impls only of the bytemuck marker traits', found=[i['trait'] for i in bad][:5])
